@@ -27,6 +27,9 @@ type c12DS struct {
 	Base  string   `json:"base"`
 	Chunk uint64   `json:"chunk"`
 	Elems []string `json:"elems"`
+	// optional (tools/props/c12file.py): the link name as hex (any bytes), the dataset's shape (default: [len(elems)])
+	NameHex string   `json:"name_hex,omitempty"`
+	Dims    []uint64 `json:"dims,omitempty"`
 }
 
 type c12Case struct {
@@ -35,6 +38,7 @@ type c12Case struct {
 	Datasets []c12DS `json:"datasets"`
 	Keep     bool    `json:"keep"`
 	DumpGCOL bool    `json:"dump_gcol"`
+	DumpFile bool    `json:"dump_file"` // return the WHOLE file as hex ("file")
 }
 
 var c12Counter uint64
@@ -348,6 +352,16 @@ func init() {
 			return res, nil
 		}
 		var werrs []interface{}
+		for di := range c.Datasets {
+			if c.Datasets[di].NameHex != "" {
+				nb, err := hex.DecodeString(c.Datasets[di].NameHex)
+				if err != nil {
+					_ = fw.Close()
+					return nil, err
+				}
+				c.Datasets[di].Name = string(nb)
+			}
+		}
 		for _, spec := range c.Datasets {
 			elems := make([][]byte, len(spec.Elems))
 			for i, h := range spec.Elems {
@@ -367,7 +381,11 @@ func init() {
 			if spec.Chunk > 0 {
 				opts = append(opts, hdf5.WithChunkDims([]uint64{spec.Chunk}))
 			}
-			ds, err := fw.CreateDataset("/"+spec.Name, dtype, []uint64{uint64(len(elems))}, opts...)
+			dims := []uint64{uint64(len(elems))}
+			if len(spec.Dims) > 0 {
+				dims = spec.Dims
+			}
+			ds, err := fw.CreateDataset("/"+spec.Name, dtype, dims, opts...)
 			if err != nil {
 				werrs = append(werrs, map[string]interface{}{"name": spec.Name, "create_dataset_err": err.Error()})
 				continue
@@ -383,6 +401,9 @@ func init() {
 			res["file_size"] = len(data)
 			if c.DumpGCOL {
 				res["gcols"] = c12ScanGCOL(data)
+			}
+			if c.DumpFile {
+				res["file"] = hex.EncodeToString(data)
 			}
 		} else {
 			res["file_err"] = err.Error()
